@@ -13,12 +13,18 @@ REAL = ['onl.sim.resources.container.*', 'onl.sim.resources.store.*', 'onl.sim.r
 STUBS = ['producer/consumer and interrupter process bodies (harness)']
 ASSUMPTIONS = ['grants are observed as trigger records of the request events; the item of a granted get is read from '
                'the request event', 'items are unique, amounts are integers or dyadic so level arithmetic is exact']
-PROBES = ['packet_items_with_equal_ids', 'tiny_amounts', 'head_cancelled_with_satisfiable_follower', 'container_hits_zero', 'container_hits_capacity', 'priority_tie',
+PROBES = ['two_resources_joined_by_a_relay', 'packet_items_with_equal_ids', 'tiny_amounts', 'head_cancelled_with_satisfiable_follower', 'container_hits_zero', 'container_hits_capacity', 'priority_tie',
           'filter_matches_nothing', 'filter_overtakes', 'cancel', 'interrupt_while_waiting', 'boundary_with_pending',
           'store_full']
 
 
 def gen(rng, tier):
+    if rng.random() < 0.04:
+        pool = [0, 0, 0.25, 0.5, 1, 2]
+        return {'engine': 'R', 'sub': 'relay', 'n': rng.randint(1, 12), 'cap1': rng.choice([None, 1, 2, 3]),
+                'cap2': rng.choice([None, 1, 1, 2]), 'credit': rng.random() < 0.3, 'relays': rng.choice([1, 1, 2]),
+                'gaps': [rng.choice(pool) for _ in range(4)], 'pause': [rng.choice(pool) for _ in range(3)],
+                't0': rng.choice([0, 5])}
     case = gen_store_case(rng, tier)
     if rng.random() < 1 / 250:
         # a crowd: well over a thousand getters waiting on an empty container when one large delivery arrives
@@ -265,7 +271,84 @@ def _op(case, pid, opi):
     return {}
 
 
+def valid(case):
+    if case.get('sub') == 'relay':
+        return case.get('n', 0) >= 1 and len(case.get('gaps') or []) >= 1 and len(case.get('pause') or []) >= 1 and \
+            all(x >= 0 for x in case['gaps'] + case['pause']) and case.get('relays', 1) >= 1
+    return True
+
+
+def run_relay(case):
+    """Two stores (or a container feeding a store) in one simulation, joined by a relay process: what one resource does
+    must not depend on what happens at the other. Every item put into the first must reach the consumer of the second,
+    in order, and nobody may be left waiting while something is there for him."""
+    from ..tap import TapEnvironment, EmptySchedule, StopSimulation
+    from onl.sim import Store, Container
+    env = TapEnvironment(case.get('t0', 0))
+    env.tap_enabled = False
+    n = case['n']
+    inbox = Store(env, capacity=case.get('cap1') or float('inf'))
+    outbox = Store(env, capacity=case.get('cap2') or float('inf'))
+    credit = Container(env, init=0) if case.get('credit') else None
+    got, log = [], []
+
+    def producer():
+        for j in range(n):
+            d = case['gaps'][j % len(case['gaps'])]
+            if d:
+                yield env.timeout(d)
+            yield inbox.put(j)
+            if credit is not None:
+                yield credit.put(1)
+
+    def relay():
+        while True:
+            if credit is not None:
+                yield credit.get(1)
+            item = yield inbox.get()
+            log.append(('relay', env.now, item))
+            yield outbox.put(item)
+
+    def consumer():
+        while True:
+            item = yield outbox.get()
+            got.append(item)
+            d = case['pause'][len(got) % len(case['pause'])]
+            if d:
+                yield env.timeout(d)
+    env.process(producer())
+    for _ in range(case.get('relays', 1)):
+        env.process(relay())
+    env.process(consumer())
+    steps, raised = 0, []
+    while steps < 20000:
+        try:
+            env.step()
+        except EmptySchedule:
+            break
+        except StopSimulation:
+            pass
+        except Exception as e:  # noqa
+            raised.append(repr(e))
+            break
+        steps += 1
+    viol = []
+    for e in raised:
+        viol.append(('C07.6', 'the run raised %s' % e))
+    if steps < 20000 and not raised:
+        if sorted(got) != list(range(n)):
+            viol.append(('C07.5', 'two stores joined by a relay: %d items were put into the first store, the consumer of the '
+                         'second received %d (first store holds %r, second holds %r) and the simulation ran out of events' %
+                         (n, len(got), list(inbox.items)[:5], list(outbox.items)[:5])))
+        elif case.get('relays', 1) == 1 and got != list(range(n)):
+            viol.append(('C07.3', 'items left the second store in the order %r' % (got[:12],)))
+    return {'viol': viol, 'digest': digest_of((tuple(got), tuple(log))), 'nontrivial': n >= 3,
+            'stats': {'two_resources_joined_by_a_relay': 1}, 'simtime': float(env.now) - float(case.get('t0', 0)), 'steps': steps}
+
+
 def run(case):
+    if case.get('sub') == 'relay':
+        return run_relay(case)
     w = run_case(case, max_steps=20000 if case.get("crowd") else 6000)
     viol, stats, nontrivial = check(w)
     for e in w.raised:
